@@ -488,7 +488,9 @@ PROPS = {
                       "(ffi_refines) and bdd_eq is semantic equality (ffi_eq_iff_sem); topvar/low/high expose the two cofactors of the top variable "
                       "(ffi_low_high_sem); robdd_model_count is the number of models modulo the counting prime (ffi_model_count); from_c_parts "
                       "keeps min(len, MAX_COEFFS) coefficients (fromCParts_spec).",
-        "level_note": "Trusted: Lean kernel; allowed axioms; harness+driver. The theorem is thin by design (the wrapper adds nothing); the substance is the three-way run C / native / model.",
+        "level_note": "Trusted: Lean kernel; allowed axioms; harness+driver. The theorem is thin by design (the wrapper adds nothing); the substance is the three-way run C / native / model. "
+                      "Every one of the 66 exported symbols of src/ffi is called by the ffi stream (builder lines: diagram operations, counts, weights, "
+                      "polynomials, scratch accessors; kind=cnf lines: literal/CNF/order/dtree/vtree constructors and the three compile entry points).",
         "explanation": "C18.* theorems; ffi stream: C symbols vs native API vs handle-layer model vs specification.",
     },
     "C19": {
